@@ -14,7 +14,7 @@ def main(c):
     walks = [
         Cfg("w1", ["p1"], ["a1", "a2", "b1", "c1"], {"A": [0, 1], "B": [0], "C": [0]},
             ["c1", "c4", "c5", "c6", "cS", "c7", "c8", "c9", "cL", "cW", "cX"], ["n1", "n2"], filt=(False, True), ops=NO_DEFER),
-        Cfg("w2", ["e1", "e2"], ["a1", "a2", "b1"], {"A": [0, 1], "B": [0]}, ["c1", "cM", "cm", "c3"], ["n1"],
+        Cfg("w2", ["e1", "e2"], ["a1", "a2", "b1"], {"A": [0, 1], "B": [0]}, ["c1", "cM", "cm", "c3", "cR", "cE"], ["n1"],
             filt=(False,), evpn=["e1", "e2"], ops=NO_DEFER),
         Cfg("w3", ["p3"], ["a1", "b1", "c1"], {"A": [0], "B": [0], "C": [0]}, ["c1", "c2", "c3", "c4", "cS", "c6", "cL", "cN"], ["n1", "n2"],
             filt=(False, True), ops=NO_DEFER),
